@@ -45,6 +45,10 @@ def main():
         findings.append({"id": "KF-C18-%s" % g, "property": "C18", "group": g, "event": "isapprox",
                          "item": ["reflexive", "reflexive_eq", "twin", "symmetric"], "lin_log2": [6, 99],
                          "text": "X == X, X.isApprox(X, eps), X vs its coefficient-negated twin and symmetry can fail for %s elements with coordinates >= 1e2: %s; isApprox compares log(Y^-1 X) component-wise with an ABSOLUTE eps (repair = a scale-aware comparison, a semantic change, not small and safe)" % (g, why)})
+    try:
+        prev = json.load(open("/verif/known_findings.json"))["findings"]
+        findings += [f for f in prev if f["property"] in ("C12",)]     # exported from tools/checks/c12.py (its own calibration)
+    except Exception: pass
     doc = {"comment": "Genuine defects of artivis/manif recorded rather than repaired (the repair would be a multi-site numerical rework of the closed forms, see DESIGN.md 2.8), and defects repaired by fix: commits. Read by tools/vlib.py; never written at run time. A finding covers an out-of-tolerance result only inside its input predicate (group, scalar, event, item, theta bucket, pi-theta bucket) and only up to the recorded bound (ratio error/tolerance in thousandths); anything else is reported as a VIOLATION.",
            "findings": findings,
            "fixed": ["fixed: property=%s %s %s" % f for f in FIXED]}
